@@ -382,7 +382,7 @@ class DNSIncoming:
         labels: List[str] = []
         seen_pointers: Set[int] = set()
         original_offset = self.offset
-        self.offset = self._decode_labels_at_offset(original_offset, labels, seen_pointers)
+        self.offset = self._decode_labels_at_offset(original_offset, labels, seen_pointers, 0)
         self._name_cache[original_offset] = labels
         name = ".".join(labels) + "."
         if len(name) > MAX_NAME_LENGTH:
@@ -391,7 +391,11 @@ class DNSIncoming:
             )
         return name
 
-    def _decode_labels_at_offset(self, off: _int, labels: List[str], seen_pointers: Set[int]) -> int:
+    def _decode_labels_at_offset(
+        self, off: _int, labels: List[str], seen_pointers: Set[int], labels_before: _int
+    ) -> int:
+        # labels_before: the labels of this name read before the pointer that led here;
+        # they count towards the limit, or every hop would start a fresh run
         # This is a tight loop that is called frequently, small optimizations can make a difference.
         view = self.view
         while off < self._data_len:
@@ -402,7 +406,7 @@ class DNSIncoming:
             if length < 0x40:
                 label_idx = off + DNS_COMPRESSION_HEADER_LEN
                 labels.append(self.data[label_idx : label_idx + length].decode('utf-8', 'replace'))
-                if len(labels) > MAX_DNS_LABELS:
+                if labels_before + len(labels) > MAX_DNS_LABELS:
                     raise IncomingDecodeError(
                         f"Maximum dns labels reached while processing label at {off} from {self.source}"
                     )
@@ -439,7 +443,7 @@ class DNSIncoming:
             if not linked_labels:
                 linked_labels = []
                 seen_pointers.add(link_py_int)
-                self._decode_labels_at_offset(link, linked_labels, seen_pointers)
+                self._decode_labels_at_offset(link, linked_labels, seen_pointers, labels_before + len(labels))
                 self._name_cache[link_py_int] = linked_labels
             labels.extend(linked_labels)
             if len(labels) > MAX_DNS_LABELS:
